@@ -1,0 +1,63 @@
+//go:build verif
+
+package proxy
+
+// Verification hook for property C20: several backend logins of ONE player (join, switches,
+// fallbacks), each on its own serverConnection as connect() creates them. Add-only, no
+// behaviour change.
+
+import (
+	"context"
+	"net"
+
+	"github.com/go-logr/logr"
+	"go.minekube.com/gate/pkg/edition/java/proto/packet"
+	"go.minekube.com/gate/pkg/gate/proto"
+)
+
+// VerifC20Session is one player that logs in to backends repeatedly.
+type VerifC20Session struct {
+	spec   VerifC19Spec
+	player *connectedPlayer
+}
+
+// VerifC20NewSession builds the player of s once.
+func VerifC20NewSession(s VerifC19Spec) *VerifC20Session {
+	sc := verifC19BuildServerConn(s, NewVerifC19Conn(s.Server.Addr(), &net.TCPAddr{}, s.Protocol, nil))
+	return &VerifC20Session{spec: s, player: sc.player}
+}
+
+// BackendLogin feeds packets (as received from backend server in the login state) to a real
+// backendLoginSessionHandler of a new serverConnection of this session's player.
+func (v *VerifC20Session) BackendLogin(server ServerInfo, packets []proto.Packet) VerifC20Result {
+	backend := NewVerifC19Conn(server.Addr(), &net.TCPAddr{}, v.spec.Protocol, nil)
+	sc := &serverConnection{
+		server:     newRegisteredServer(server),
+		player:     v.player,
+		log:        logr.Discard(),
+		connection: backend,
+	}
+	ch := make(chan *connResponse, 1)
+	h := newBackendLoginSessionHandler(sc, &connRequestCxt{Context: context.Background(), response: ch}, sc.player.sessionHandlerDeps)
+	for _, p := range packets {
+		h.HandlePacket(&proto.PacketContext{Direction: proto.ClientBound, Protocol: v.spec.Protocol, Packet: p})
+	}
+	var res VerifC20Result
+	for _, p := range backend.Packets {
+		if r, ok := p.(*packet.LoginPluginResponse); ok {
+			res.Responses = append(res.Responses, r)
+		}
+	}
+	res.BackendClosed = backend.CloseCount > 0
+	select {
+	case r := <-ch:
+		res.HasResult = true
+		res.ResultErr = r.error
+		if r.connectionResult != nil {
+			res.ResultStatus = r.connectionResult.status
+			res.ResultReason = r.connectionResult.reason
+		}
+	default:
+	}
+	return res
+}
